@@ -99,4 +99,13 @@ structure Inv (s : TSt) : Prop where
   uncles : s.sUncles = s.U * s.nUncles
   le : s.actual ≤ s.max
 
+
+theorem inv_iff (s : TSt) : Inv s ↔
+    (s.sTotal = s.actual ∧ s.sTxs = s.txsActual ∧ s.sProposals = P * s.nProposals ∧
+     s.sUncles = s.U * s.nUncles ∧ s.actual ≤ s.max) :=
+  ⟨fun h => ⟨h.total, h.txs, h.props, h.uncles, h.le⟩, fun ⟨a, b, c, d, e⟩ => ⟨a, b, c, d, e⟩⟩
+
+/-- the invariant is decidable: the driver evaluates it on the real assembler's bookkeeping -/
+instance (s : TSt) : Decidable (Inv s) := decidable_of_iff _ (inv_iff s).symm
+
 end CkbVerif.Template
